@@ -21,6 +21,7 @@
 #include "common/rpc/RpcChannel.h"
 
 #include <errno.h>
+#include <string.h>
 #include <google/protobuf/service.h>
 #include <google/protobuf/message.h>
 #include <google/protobuf/descriptor.h>
@@ -117,6 +118,7 @@ RpcChannel::RpcChannel(
       m_buffer_size(0),
       m_expected_size(0),
       m_current_size(0),
+      m_header_read(0),
       m_export_map(export_map),
       m_recv_type_map(NULL) {
   if (descriptor) {
@@ -367,24 +369,30 @@ int RpcChannel::AllocateMsgBuffer(unsigned int size) {
 
 
 /*
- * Read 4 bytes and decode the header fields.
- * @returns: -1 if there is no data is available, version and size are 0
+ * Read the 4 byte header and decode the fields.
+ * @returns: -1 on a read error. version and size are 0 on error, and until
+ *   all 4 bytes of the header have been received.
  */
 int RpcChannel::ReadHeader(unsigned int *version,
-                                 unsigned int *size) const {
+                                 unsigned int *size) {
   uint32_t header;
   unsigned int data_read = 0;
   *version = *size = 0;
 
-  if (m_descriptor->Receive(reinterpret_cast<uint8_t*>(&header),
-                            sizeof(header), data_read)) {
+  // The 4 header bytes may arrive in more than one read, so collect them in
+  // m_header until we have them all.
+  if (m_descriptor->Receive(m_header + m_header_read,
+                            sizeof(m_header) - m_header_read, data_read)) {
     OLA_WARN << "read header error: " << strerror(errno);
     return -1;
   }
 
-  if (!data_read)
+  m_header_read += data_read;
+  if (m_header_read < sizeof(m_header))
     return 0;
 
+  m_header_read = 0;
+  memcpy(&header, m_header, sizeof(header));
   RpcHeader::DecodeHeader(header, version, size);
   return 0;
 }
